@@ -91,6 +91,21 @@ func (c *Cell) String() string {
 	return "<NULL>"
 }
 
+// valueKey returns a string that identifies the value of the cell. It is the
+// same as String except for time anchors, that are the same value if they are
+// the same instant, independently of the time zone they are expressed in.
+func (c *Cell) valueKey() string {
+	if c.T != nil {
+		return c.T.UTC().Format(time.RFC3339Nano)
+	}
+	if c.P != nil {
+		if ta, err := c.P.TimeAnchor(); err == nil {
+			return fmt.Sprintf("%q@[%s]", string(c.P.ID()), ta.UTC().Format(time.RFC3339Nano))
+		}
+	}
+	return c.String()
+}
+
 // Row represents a collection of cells.
 type Row map[string]*Cell
 
@@ -780,6 +795,9 @@ type countDistinctAcc struct {
 // Accumulate takes the given value and accumulates it to the current state.
 func (c *countDistinctAcc) Accumulate(v interface{}) (interface{}, error) {
 	vs := fmt.Sprintf("%v", v)
+	if cell, ok := v.(*Cell); ok {
+		vs = cell.valueKey()
+	}
 	c.state[vs]++
 	return int64(len(c.state)), nil
 }
@@ -986,7 +1004,7 @@ func (t *Table) Reduce(cfg SortConfig, aaps []AliasAccPair) error {
 	id := func(r Row) string {
 		res := bytes.NewBufferString("")
 		for _, c := range cfg {
-			res.WriteString(r[c.Binding].String())
+			res.WriteString(r[c.Binding].valueKey())
 			res.WriteString(";")
 		}
 		return res.String()
